@@ -47,6 +47,8 @@ type Case struct {
 	// Spelling: how the second command line names the same file: 0 as the first
 	// did, 1 doubled slash, 2 "/./", 3 "x/../", 4 relative to the working directory
 	Spelling int `json:"spelling,omitempty"`
+	// OtherTmp: the second runs with a TMPDIR of its own
+	OtherTmp bool `json:"otherTmp,omitempty"`
 	// Backdate: when the second is issued against an answering first run, every
 	// history file is made to look 25 hours old (the DAG keeps history for one
 	// day): a start that is refused must not prune the active run's record either
@@ -157,7 +159,11 @@ func (w *world) supervise(c *Case, k int, wantLog bool) (*crashkit.Result, *repo
 		if c.Backdate {
 			bd = "backdate"
 		}
-		o.HoldCmd = strings.Join([]string{os.Getenv("VERIF_TOOL_SECOND"), report, w.h.Data, w.marker, w.file, bin, mode, w.priorID, sp, cwd, bd}, " ")
+		tmp := "-"
+		if c.OtherTmp {
+			tmp = filepath.Join(w.h.Dir, "othertmp")
+		}
+		o.HoldCmd = strings.Join([]string{os.Getenv("VERIF_TOOL_SECOND"), report, w.h.Data, w.marker, w.file, bin, mode, w.priorID, sp, cwd, bd, tmp}, " ")
 	}
 	r, err := crashkit.Run(w.h.Dir, o, bin, "start", "-q", w.file)
 	if err != nil {
@@ -367,12 +373,12 @@ func check(t rep.Fataler, c Case) {
 				}
 			}
 			_ = secondLines
-			key := rep.Hash(map[string]any{"k": k, "retry": c.Retry, "spelling": c.Spelling, "backdate": c.Backdate})
+			key := rep.Hash(map[string]any{"k": k, "retry": c.Retry, "spelling": c.Spelling, "backdate": c.Backdate, "otherTmp": c.OtherTmp})
 			faultLabel := "accept-fault:none"
 			if c.FailAccept {
 				faultLabel = "accept-fault:EMFILE-once"
 			}
-			lbl := []string{"phase:" + phase, "syscall:" + call.Name, fmt.Sprintf("second-exit:%d", min(rp.SecondExit, 1)), faultLabel, fmt.Sprintf("second-path-spelling:%d", c.Spelling)}
+			lbl := []string{"phase:" + phase, "syscall:" + call.Name, fmt.Sprintf("second-exit:%d", min(rp.SecondExit, 1)), faultLabel, fmt.Sprintf("second-path-spelling:%d", c.Spelling), fmt.Sprintf("second-own-TMPDIR:%v", c.OtherTmp)}
 			if rp.Backdated {
 				lbl = append(lbl, "active-record-looks-a-day-old")
 			}
@@ -406,7 +412,7 @@ func TestProp(t *testing.T) {
 	}
 	rapid.Check(t, func(t *rapid.T) {
 		c := Case{Retry: rapid.IntRange(0, 2).Draw(t, "retry") == 0, FailAccept: rapid.IntRange(0, 3).Draw(t, "failAccept") == 0,
-			Spelling: rapid.SampledFrom([]int{0, 1, 2, 3, 4}).Draw(t, "spelling"), Backdate: rapid.Bool().Draw(t, "backdate")}
+			Spelling: rapid.SampledFrom([]int{0, 1, 2, 3, 4}).Draw(t, "spelling"), Backdate: rapid.Bool().Draw(t, "backdate"), OtherTmp: rapid.Bool().Draw(t, "otherTmp")}
 		for i := 0; i < 2; i++ {
 			c.Picks = append(c.Picks, rapid.IntRange(0, 99999).Draw(t, "pick"))
 		}
@@ -430,6 +436,14 @@ func TestKnown(t *testing.T) {
 			continue
 		}
 		check(t, Case{K: k, FailAccept: true, Retry: i%2 == 1})
+	}
+	// … and holds while the first run executes its steps, with the second issued
+	// from an environment whose TMPDIR differs and under another spelling of the path
+	for i, k := range []int{20, 24, 28, 32, 36, 42, 48, 54} {
+		if (i+8)%nsh != shard {
+			continue
+		}
+		check(t, Case{K: k, Retry: i%2 == 0, OtherTmp: true, Spelling: i % 5})
 	}
 }
 
